@@ -125,6 +125,18 @@ class Seq:
         return z3.simplify(n)
 
 
+class SymColl:
+    """Bounded symbolic collection / iterator: slots (present: Bool, value). Used for HashSet / Vec /
+    slice contents whose elements matter (filter / map / any / all / is_empty pipelines)."""
+    __slots__ = ("items", "kind")
+
+    def __init__(self, items, kind="coll"):
+        self.items, self.kind = tuple(items), kind
+
+    def __repr__(self):
+        return f"SymColl[{len(self.items)} slots]"
+
+
 UNIT = Agg("tuple", None, ())
 
 BUILTIN_ENUMS = {
@@ -367,6 +379,11 @@ class Exec:
                         t, self.uf("seq:rep", Val, z3.BitVecSort(64), Val)(self.to_val(st, p_[1]), p_[2]))
                 else:
                     t = self.uf("seq:cat", Val, Val, Val)(t, p_[1])
+            return t
+        if isinstance(v, SymColl):
+            t = z3.Const("coll:nil", Val)
+            for pres, val in v.items:
+                t = self.uf("coll:add", Val, z3.BoolSort(), Val, Val)(t, pres, self.to_val(st, val))
             return t
         if isinstance(v, FnItem):
             return z3.Const("fn:" + self.canon_fn(v.text), Val)
@@ -1321,6 +1338,61 @@ class Exec:
                 idx.setdefault((None, None, name) + tuple(tail), []).append(fn)
         return idx
 
+    def subrun(self, st, fn, args):
+        """Run MIR function fn on args from (a copy of) the current state; returns return-path ends whose
+        .cond only contains the conditions added by the sub-run."""
+        s2 = State()
+        s2.cells = dict(st.cells)
+        s2.cond = list(st.cond)
+        s2.events = []
+        fr = Frame(fn)
+        for (n, _ty), v in zip(fn.args, args):
+            fr.locals[n] = self.new_cell(s2, v)
+        s2.frames = [fr]
+        ends = self._run_state(s2)
+        out = []
+        k = len(st.cond)
+        for p in ends:
+            if p.kind == "panic":
+                continue
+            if p.kind != "return":
+                raise Unsupported(f"closure {fn.name} ends with {p.kind}")
+            p.cond = p.cond[k:]
+            out.append(p)
+        return out
+
+    def closure_value(self, st, fv, params):
+        """Evaluate a closure / fn item on params: merged scalar (If-chain) or the single-path value."""
+        fn = fn_of_value(self, fv)
+        if fn is None or not fn.blocks:
+            return None
+        if "{closure#" in fn.name:
+            envty = fn.args[0][1].strip()
+            env = Ref(self.new_cell(st, fv)) if envty.startswith("&") else fv
+            args = [env] + list(params)
+        else:
+            args = list(params)
+        ends = self.subrun(st, fn, args)
+        if not ends:
+            raise Unsupported(f"closure {fn.name} has no returning path")
+        for p in ends:
+            st.cells.update({c: v for c, v in p.state.cells.items() if c not in st.cells})
+        if len(ends) == 1:
+            return ends[0].ret
+        rets = [p.ret for p in ends]
+        if all(isinstance(r, z3.ExprRef) for r in rets):
+            acc = rets[-1]
+            for p in reversed(ends[:-1]):
+                c = z3.And(*p.cond) if len(p.cond) > 1 else (p.cond[0] if p.cond else z3.BoolVal(True))
+                acc = z3.If(c, p.ret, acc)
+            return acc
+        # non-scalar results: merge through their Val terms
+        acc = self.to_val(ends[-1].state, rets[-1])
+        for p in reversed(ends[:-1]):
+            c = z3.And(*p.cond) if len(p.cond) > 1 else (p.cond[0] if p.cond else z3.BoolVal(True))
+            acc = z3.If(c, self.to_val(p.state, p.ret), acc)
+        return Opq(acc, fn.ret)
+
     def call(self, st, fr, t, work, ends):
         _, dest, callee, argops, retbb = t
         dest_ty = self.place_ty(fr, dest) if dest is not None else "()"
@@ -1854,7 +1926,81 @@ def m_unwrap_or(ex, st, fr, callee, args, argtys, dty):
     return Fork(alts)
 
 
+def _coll(ex, st, v):
+    v = _deref_val(ex, st, v)
+    return v if isinstance(v, SymColl) else None
+
+
+def m_coll_iter(ex, st, fr, callee, args, argtys, dty):
+    c = _coll(ex, st, args[0])
+    if c is None:
+        return NotImplemented
+    return SymColl(c.items, "iter")
+
+
+def m_coll_filter(ex, st, fr, callee, args, argtys, dty):
+    c = _coll(ex, st, args[0])
+    if c is None:
+        return NotImplemented
+    out = []
+    for pres, val in c.items:
+        cell = Ref(ex.new_cell(st, val))
+        keep = ex.closure_value(st, args[1], [Ref(ex.new_cell(st, cell))])
+        if keep is None or not z3.is_bool(keep):
+            return NotImplemented
+        out.append((z3.And(pres, keep), val))
+    return SymColl(out, "iter")
+
+
+def m_coll_map(ex, st, fr, callee, args, argtys, dty):
+    c = _coll(ex, st, args[0])
+    if c is None:
+        return NotImplemented
+    out = []
+    for pres, val in c.items:
+        r = ex.closure_value(st, args[1], [Ref(ex.new_cell(st, val))])
+        if r is None:
+            return NotImplemented
+        out.append((pres, r))
+    return SymColl(out, "iter")
+
+
+def m_coll_collect(ex, st, fr, callee, args, argtys, dty):
+    c = _coll(ex, st, args[0])
+    if c is None:
+        return NotImplemented
+    return SymColl(c.items, "coll")
+
+
+def m_coll_is_empty(ex, st, fr, callee, args, argtys, dty):
+    c = _coll(ex, st, args[0])
+    if c is None:
+        return NotImplemented
+    return z3.And(*[z3.Not(p) for p, _ in c.items]) if c.items else z3.BoolVal(True)
+
+
+def m_coll_any_all(ex, st, fr, callee, args, argtys, dty):
+    c = _coll(ex, st, args[0])
+    if c is None:
+        return NotImplemented
+    vals = []
+    for pres, val in c.items:
+        r = ex.closure_value(st, args[1], [Ref(ex.new_cell(st, val))])
+        if r is None or not z3.is_bool(r):
+            return NotImplemented
+        vals.append((pres, r))
+    if "::any::<" in callee or callee.rstrip().endswith("::any"):
+        return z3.Or(*[z3.And(p, r) for p, r in vals]) if vals else z3.BoolVal(False)
+    return z3.And(*[z3.Implies(p, r) for p, r in vals]) if vals else z3.BoolVal(True)
+
+
 STD_MODELS = [
+    (r"^(HashSet|Vec|BTreeSet)::<.*>::iter$|^core::slice::<impl \[.*\]>::iter$", m_coll_iter),
+    (r" as Iterator>::filter::<", m_coll_filter),
+    (r" as Iterator>::map::<", m_coll_map),
+    (r" as Iterator>::collect::<", m_coll_collect),
+    (r" as Iterator>::(any|all)::<", m_coll_any_all),
+    (r"^(HashSet|Vec)::<.*>::is_empty$", m_coll_is_empty),
     (r"^Option::<.*>::ok_or_else::<", m_ok_or_else),
     (r"^Option::<.*>::ok_or::<", m_ok_or),
     (r"^Result::<.*>::map_err::<", m_map_err),
